@@ -1095,7 +1095,14 @@ def run_sprites(prop: str, tier: str, seed: int, level: int, nq: int, nt: int, g
         ib = vplib.impl_observe(profiles[0], allp, w.dir, level, max_frames=max_frames if max_frames else None,
                                 max_layers=max_layers)
         others = {p: vplib.impl_observe(p, allp, w.dir, level, max_frames=max_frames, max_layers=max_layers) for p in profiles[1:]}
-        mb = vplib.model_observe(allp, w.dir, level, max_frames=max_frames, max_layers=max_layers)
+        # (a generated sprite marked "_nomodel" - tens of thousands of layers, which the model's inductive integers make slow - is compared
+        # with the expectations computed from the sprite only)
+        nomodel = {i for i, c in enumerate(cases) if c[0].get("_nomodel")}
+        msel = [i for i in range(len(allp)) if i not in nomodel]
+        mres = vplib.model_observe([allp[i] for i in msel], w.dir, level, max_frames=max_frames, max_layers=max_layers)
+        mb = list(ib)
+        for i, r in zip(msel, mres):
+            mb[i] = r
         corr_fail, direct_fail = [], []
         sigs = set()
         for i, p in enumerate(allp):
@@ -1354,6 +1361,18 @@ def check_C19(tier, seed):
         for g in range(16 if tier == "quick" else 96):
             s = covering_sprite(g, rng)
             out.append((s, gen.encode(s, None, rng)))
+        # more layers than a 16-bit index can tell apart: 65538 layers, cels on layers 0, 1 and 65536 only (the cel of layer 65537 is
+        # absent - not the cel of layer 1; the observation looks at the first layers and at the last one)
+        nl = 65538
+        layers = [{"flags": 1 if i != 0 else 0, "ltype": 0, "level": 0, "blend": 0, "opacity": 255, "name": "", "tileset": 0, "ud": None, "default_w": 0, "default_h": 0}
+                  for i in range(nl)]
+        cels = {(0, 0): {"kind": "raw", "x": 0, "y": 0, "w": 1, "h": 1, "opacity": 255, "pixels": [(250, 1, 2, 255)], "ud": None},
+                (0, 1): {"kind": "raw", "x": 1, "y": 0, "w": 1, "h": 1, "opacity": 255, "pixels": [(3, 240, 4, 255)], "ud": None},
+                (1, 65536): {"kind": "raw", "x": 0, "y": 1, "w": 1, "h": 1, "opacity": 200, "pixels": [(5, 6, 230, 255)], "ud": None}}
+        big = {"width": 2, "height": 2, "depth": 32, "transparent": 0, "durations": [100, 100], "speed": 100, "palette_chunks": [], "palette": None,
+               "sprite_ud": None, "ext_files": [], "tilesets": [], "layers": layers, "cels": cels, "tags": [], "has_tags_chunk": False, "slices": [],
+               "_nomodel": True}
+        out.append((big, gen.encode(big, None, rng)))
         return out
     return run_sprites("C19", tier, seed, 15, 200, 3000, dict(max_canvas=6, max_layers=5, max_frames=4, rich=False),
                        [1, 22, 23, 24, 25, 27, 6, 7], direct_C19,
@@ -2260,11 +2279,14 @@ def blend_image(mode: int, k: int, variant: str, rng: random.Random, size: int =
     # sparse layer indices such as {2, 5} of 9)
     p0, p1, p2 = rng.choice([(0, 0, 0), (0, 0, 0), (2, 2, 1), (3, 0, 4), (0, 3, 0), (7, 9, 3), (0, 62, 0), (1, 0, 0)])
     pad = lambda n, tag: [ase.LayerChunk(flags=1, blend=rng.randrange(19), opacity=rng.choice([255, 0, 128]), name="%s%d" % (tag, i)) for i in range(n)]
-    fr = ase.Frame(chunks=pad(p0, "u") + [ase.LayerChunk(flags=1, blend=0, opacity=255, name="b")] + pad(p1, "m")
-                   + [ase.LayerChunk(flags=fl, blend=mode, opacity=lo, name="s")] + pad(p2, "o") + [
+    # the source layer inside a visible GROUP with an opacity and a blend mode of its own (a group's opacity and mode do not take
+    # part in compositing), and any value in the header's flags word
+    grp = [ase.LayerChunk(flags=1, ltype=1, blend=rng.randrange(19), opacity=rng.choice([128, 0, 200, 255]), name="g")] if rng.random() < 0.3 else []
+    fr = ase.Frame(chunks=pad(p0, "u") + [ase.LayerChunk(flags=1, blend=0, opacity=255, name="b")] + pad(p1, "m") + grp
+                   + [ase.LayerChunk(flags=fl, blend=mode, opacity=lo, name="s", level=1 if grp else 0)] + pad(p2, "o") + [
         ase.CelChunk(layer=p0, w=size, h=size, pixels=ase.rgba_bytes(B), ctype_cel=2, zlevel=1),
-        ase.CelChunk(layer=p0 + 1 + p1, w=size, h=size, opacity=co, pixels=ase.rgba_bytes(S), ctype_cel=2, zlevel=1)])
-    return ase.serialize(ase.Sprite(width=size, height=size, frames=[fr])), B, S, lo, co
+        ase.CelChunk(layer=p0 + 1 + p1 + len(grp), w=size, h=size, opacity=co, pixels=ase.rgba_bytes(S), ctype_cel=2, zlevel=1)])
+    return ase.serialize(ase.Sprite(width=size, height=size, frames=[fr], flags=rng.choice([1, 1, 0, 2, 3, 6, 7, 0xFFFFFFFF]))), B, S, lo, co
 
 
 def blend_wide_image(mode: int, rng: random.Random):
@@ -2531,6 +2553,16 @@ def blend_check(prop: str, tier: str, seed: int) -> int:
         with ThreadPoolExecutor(max_workers=vplib.NCPU) as ex:
             refs = list(ex.map(run_ref, ref_lines))
         corr_fail, direct_fail = [], []
+        # the single-cel route (Cel::image: one cel over an empty canvas, through the same blend functions) on the small images: model = implementation
+        small_i = [i for i, c in enumerate(cases) if c[2] in ("offset", "same", "apart", "linked", "indexed", "tilemap")]
+        c4 = vplib.impl_observe("relchk", [paths[i] for i in small_i], w.dir, 4, timeout=2400, tag="cels")
+        m4 = vplib.model_observe([paths[i] for i in small_i], w.dir, 4, timeout=3000, tag="cels_model")
+        for i, a, b in zip(small_i, c4, m4):
+            d = same_block(a, b, [23, 24])
+            if d:
+                direct_fail.append({"what": "the image of a single cel (the source over an empty canvas, alpha scaled by the opacity product) differs from the model's",
+                                    "mode": cases[i][0], "variant": cases[i][2], "opacity": [cases[i][6], cases[i][7]], "diff": d, "_data": open(paths[i], "rb").read()})
+                break
         npix = 0
         guard_false = 0
         undefined_ref = 0
@@ -3287,6 +3319,17 @@ def check_C15(tier: str, seed: int) -> int:
                 for desc, data in c15_value_sweeps(sp, rng, "quick" if nbase > 3 else tier):
                     cases.append((desc, data, True))
                     feats["value sweep: " + desc.split(" =")[0].split(" at ")[0]] += 1
+        # an unsupported feature inside a frame of EXACTLY 65535 chunks written with the old-format frame header (16-bit count 0xFFFF,
+        # 32-bit count 0) and with the two other spellings of that count: the frame is read, so the feature is met
+        filler = [ase.RawChunk(ase.CT_PATH, b"") for _ in range(65534)]
+        for desc, bad in (("blend mode 19", ase.LayerChunk(name="x", blend=19)), ("ICC profile", ase.ColorProfileChunk(ptype=2, icc=b"icc!")),
+                          ("layer type 7", ase.LayerChunk(name="y", ltype=7))):
+            for cm in (("old", (65535, 0)), ("both", (65535, 65535)), ("new", (1, 65535))):
+                for pos in (0, 65534):
+                    fr = ase.Frame(chunks=filler[:pos] + [bad] + filler[pos:], count_mode=cm[1])
+                    data = ase.serialize(ase.Sprite(width=1, height=1, frames=[ase.Frame(chunks=[ase.LayerChunk(name="l")]), fr]))
+                    cases.append(("%s in a frame of 65535 chunks (%s count field, position %d)" % (desc, cm[0], pos), data, True))
+                    feats["65535-chunk frame"] += 1
         paths = [w.put(c[1]) for c in cases]
         ib = vplib.impl_observe("release", paths, w.dir, 0)
         mb = vplib.model_observe(paths, w.dir, 0)
